@@ -31,8 +31,22 @@ def call(pred_obj, row):
         return None
 
 
+def sub_predicates(obj):
+    out, stack = [], [obj]
+    while stack:
+        q = stack.pop()
+        out.append(q)
+        stack.extend(getattr(q, "operands", ()) or ())
+        if getattr(q, "operand", None) is not None:
+            stack.append(q.operand)
+    return out
+
+
 def run_impl(p, rows):
     obj = enc.ipred(p)
+    # declared columns of every sub-predicate object, asked before and after the enclosing predicates were asked for theirs
+    subs = sub_predicates(obj)
+    before = [frozenset(q.columns_required) for q in reversed(subs)][::-1]
     triv = obj.as_trivial()
     flat = dr.flatten_logical_and(obj)
     sel = dr.Selection(obj).predicate
@@ -42,8 +56,10 @@ def run_impl(p, rows):
     for r in rows:
         rr = {k: v for k, v in r.items() if k in cols}
         evals.append((call(obj, r), None if conj is None else call(conj, r), call(sel, r), call(obj, rr)))
+    after = [frozenset(q.columns_required) for q in subs]
+    unstable = [(str(q), sorted(map(str, b)), sorted(map(str, a))) for q, b, a in zip(subs, before, after) if a != b]
     return {"triv": triv, "flat": None if flat is False else [enc.dpred(q) for q in flat],
-            "sel": enc.dpred(sel), "cols": sorted(cols), "evals": evals}
+            "sel": enc.dpred(sel), "cols": sorted(cols), "evals": evals, "unstable": unstable}
 
 
 def ccase(p, rows, res):
@@ -91,7 +107,7 @@ def make_cases(rng, tier):
         res = run_impl(p, rs)
         nontrivial = res["triv"] is not None or res["flat"] is None or res["flat"] != [p] or res["sel"] != p
         cases.append({"json": {"predicate": jsonable(p), "rows": jsonable(rs), "impl": jsonable(res)},
-                      "coq": ccase(p, rs, res), "nontrivial": nontrivial, "key": cpred(p)})
+                      "coq": ccase(p, rs, res), "nontrivial": nontrivial, "key": cpred(p), "unstable": res["unstable"]})
     return cases
 
 
@@ -102,8 +118,12 @@ def run(ctx):
     bits = {1: "as_trivial / flatten_logical_and / Selection.predicate / columns_required differ from the model",
             4: "a value computed by the real library contradicts the specification (folding answer, flattened "
                "conjunction, stored selection predicate or evaluation on the restricted row)"}
-    summ = core.judge(ctx, cases, HDR, "check_pred", bits=bits, shard=300)
-    core.conclude_s1(ctx, s1, summ["spec_failures"] > 0 or bool(ctx.violations))
+    found = False
+    for c in sorted([c for c in cases if c["unstable"]], key=lambda c: len(json.dumps(c["json"]["predicate"])))[:2]:
+        found |= ctx.failing_case({"kind": "declared-columns-of-a-sub-predicate-changed", "predicate": c["json"]["predicate"],
+                                   "sub_predicate_before_after": c["unstable"][:3]}, None)
+    summ = core.judge(ctx, cases, HDR, "check_pred", bits=bits, shard=300, found_elsewhere=found)
+    core.conclude_s1(ctx, s1, found or summ["spec_failures"] > 0 or bool(ctx.violations))
     distinct = {c["key"] for c in cases if c["nontrivial"]}
     ctx.coverage.update({
         "evaluations": len(cases), "distinct_nontrivial": len(distinct),
